@@ -497,7 +497,11 @@ func sdOneString(out *vk.Out, s []byte) {
 	}
 	out.Put(probe)
 	if probe.Hdr != nil {
-		for _, f := range sdFamilies[1:] {
+		fams := sdFamilies[1:]
+		if len(s) >= 3 {
+			fams = sdFamilies[1:5] // the families named by the property; all nine run in corpus, scan and mutate
+		}
+		for _, f := range fams {
 			out.Put(sdRun("exhaustive", frames, 0, f.name))
 		}
 	}
@@ -827,6 +831,7 @@ func sdCorpus(out *vk.Out) {
 		B(`2["`), B(`2"`), B(`2[`), B(`2`), B(`2""`), B(`2"\"`), B(`2["a\\"]`), B(`2["a\"]`), B(`2["a","b"]`),
 		B(`2/n,18446744073709551615["e"]`), B(`2/n,18446744073709551616["e"]`), B(`212["e",1,2]`),
 		B(`3`), B(`3[]`), B(`31[1]`), B(`1`), B(`1/n,`), B(`4{"message":"x"}`), B(`4"x"`), B(`0{"sid":"s"}`), B(`0/n,{"sid":"s"}`),
+		B(`31`), B(`2/n,7`), B(`312`), B(`61-5`, "A"), B(`0/n,5`),
 		B(``), B(`7`), B(`/`), B(`a`), B("\x00"), B("2\xff\"\xfe\""),
 	}
 	for _, fr := range cases {
@@ -846,6 +851,7 @@ func siodecodeMain(args []string) error {
 	workers := fs.Int("workers", 8, "")
 	outp := fs.String("out", "-", "")
 	classes := fs.String("classes", "", "live: comma separated class indexes (default all)")
+	par := fs.Int("par", 1, "live: classes run concurrently")
 	fs.Parse(args)
 	out, err := vk.NewOut(*outp)
 	if err != nil {
@@ -862,7 +868,7 @@ func siodecodeMain(args []string) error {
 	case "mutate":
 		sdMutate(out, *seed, *n)
 	case "live":
-		return sdLive(out, *classes)
+		return sdLive(out, *classes, *par)
 	default:
 		return fmt.Errorf("unknown mode %q", *mode)
 	}
@@ -1046,7 +1052,10 @@ func sdLiveEmit(out *vk.Out, row sdLiveRow) {
 	}
 }
 
-func sdLive(out *vk.Out, classes string) error {
+func sdLive(out *vk.Out, classes string, par int) error {
+	if par < 1 {
+		par = 1
+	}
 	want := map[int]bool{}
 	if classes != "" {
 		for _, x := range strings.Split(classes, ",") {
@@ -1068,10 +1077,28 @@ func sdLive(out *vk.Out, classes string) error {
 		return fmt.Errorf("live: the healthy client got no ack before any malformed traffic")
 	}
 	fmt.Printf("LIVE-CLASSES %d\n", len(sdLiveClasses))
+	var wg sync.WaitGroup
+	sem := make(chan struct{}, par)
+	var echoMu sync.Mutex
 	for i, cl := range sdLiveClasses {
 		if len(want) > 0 && !want[i] {
 			continue
 		}
+		i, cl := i, cl
+		wg.Add(1)
+		sem <- struct{}{}
+		go func() {
+			defer wg.Done()
+			defer func() { <-sem }()
+			sdLiveOne(out, r, hs, &echoMu, i, cl)
+		}()
+	}
+	wg.Wait()
+	return nil
+}
+
+func sdLiveOne(out *vk.Out, r *sdLiveRig, hs sio.ClientSocket, echoMu *sync.Mutex, i int, cl sdLiveClass) {
+	{
 		fmt.Printf("LIVE-START %d %s\n", i, cl.Name)
 		row := sdLiveRow{Suite: "live", Class: cl.Name, Index: i, Fam: cl.Fam, Frames: [][]int{}}
 		var frames [][]byte
@@ -1128,7 +1155,7 @@ func sdLive(out *vk.Out, classes string) error {
 		if err != nil {
 			row.Note = "raw dial failed: " + err.Error()
 			sdLiveEmit(out, row)
-			continue
+			return
 		}
 		sock.Send(&eioparser.Packet{Type: eioparser.PacketTypeMessage, Data: []byte("0")})
 		gotSid := r.wait(10*time.Second, func() bool { rmu.Lock(); defer rmu.Unlock(); return sid != "" })
@@ -1164,7 +1191,9 @@ func sdLive(out *vk.Out, classes string) error {
 		row.Closed = closed
 		rmu.Unlock()
 
+		echoMu.Lock()
 		row.Healthy = sdEcho(hs, fmt.Sprintf("after-%d", i), 10*time.Second)
+		echoMu.Unlock()
 		lm, ls, lok := sdDialHealthy(r.ts.URL)
 		row.Later = lok && sdEcho(ls, fmt.Sprintf("later-%d", i), 10*time.Second)
 		lm.Close()
@@ -1172,5 +1201,4 @@ func sdLive(out *vk.Out, classes string) error {
 		sdLiveEmit(out, row)
 		fmt.Printf("LIVE-DONE %d\n", i)
 	}
-	return nil
 }
